@@ -757,6 +757,8 @@ class Exec:
         if c is not None and qn != self.current_fn and getattr(c, "use_at_calls", True):
             yield from c.apply(self, st, fn, args, kw); return
         if self.depth >= self.max_inline: raise Unsupported("inline depth at %s" % qn)
+        fd = S.foreign_decorators(fn.node)
+        if fd: raise Unsupported("%s is wrapped by the decorator %s: what runs is the wrapper, not the body" % (qn, ", ".join(fd)))
         # inline
         self.inlined.add(qn)
         env = self.bind_args(st, fn, args, kw)
